@@ -282,4 +282,8 @@ def codec_audit(tier):
                              f"{len(printers)} printers x {len(parsers)} parsers")
 
 
+    def bounded_stand_in(self, tier, undecided):
+        from checks import native
+        return native.stand_in(['C17.', 'C05.'], tier, undecided)
+
 CHECK = C17()
